@@ -213,7 +213,7 @@ type profile struct {
 
 var allActs = []string{"equivocate", "badparent", "staleqc", "inflate", "dupsigner", "relabel", "subquorum",
 	"wrongblock", "genesisview", "futuretimeout", "badtimeoutsig", "dupvote", "multivote", "zerovote", "unknownvote",
-	"strayvote", "replay", "liefetch", "silent", "staleTC", "swapids", "nosig", "sameview", "aggreplay", "forgevote", "forgetc", "forgecontrib", "aggtwin", "aggattest", "aggforge", "roguekey", "payloadeq", "qceq"}
+	"strayvote", "replay", "liefetch", "silent", "staleTC", "swapids", "nosig", "sameview", "aggreplay", "forgevote", "forgetc", "forgecontrib", "aggtwin", "aggattest", "aggforge", "roguekey", "payloadeq", "qceq", "aggswap"}
 
 func profileFor(prop string) profile {
 	pr := profile{byz: 0.6, acts: allActs, faults: 6, leaders: []string{"round-robin", "round-robin", "round-robin", "fixed", "carousel", "reputation", "scripted"}}
@@ -319,7 +319,7 @@ func GenPlan(prop string, seed uint64) *Plan {
 	}
 	if prop == "C02" && (p.Ruleset == "fasthotstuff" || p.Knobs["aggqc"] == 1) {
 		// aggregate certificates in use: weight the one forgery that lives inside them
-		pr.acts = append(append([]string{}, pr.acts...), "aggtwin", "aggtwin", "aggtwin", "aggtwin", "aggtwin", "aggtwin")
+		pr.acts = append(append([]string{}, pr.acts...), "aggtwin", "aggtwin", "aggtwin", "aggtwin", "aggtwin", "aggtwin", "aggswap", "aggswap", "aggswap", "aggswap", "aggswap", "aggswap")
 	}
 	p.Wire = pr.forceWire || g.p(0.6)
 	p.Leader = pick(g, pr.leaders...)
@@ -451,15 +451,23 @@ func GenPlan(prop string, seed uint64) *Plan {
 			p.Links.Drop = 0.08
 		}
 	}
-	if prop == "C02" && len(p.Byz) > 0 && p.Crypto == "bls12" && p.N >= 4 && mix(p.Inner, 0x726f6775)%2 == 0 {
+	if (prop == "C02" || prop == "C09") && p.knob("kauri", 0) == 0 && len(p.Byz) > 0 && p.Crypto == "bls12" && p.N >= 4 && mix(p.Inner, 0x726f6775)%2 == 0 {
 		// rogue-key attack on BLS aggregation: one Byzantine replica is configured with g1^x - pk(victim) and the
 		// victim's proof of possession, and forges certificates from q-2 genuine votes
 		p.Byz = p.Byz[:1]
 		p.Byz[0].Kind, p.Byz[0].Acts, p.Byz[0].Rate = "script", []string{"roguekey"}, 1.0
+		if prop == "C09" {
+			// the rogue replica's own votes (made with a key that does not match its registration) arrive view after
+			// view, some of them twice
+			p.Byz[0].Acts = []string{"roguekey", "dupvote"}
+		}
 		if p.Knobs == nil {
 			p.Knobs = map[string]int{}
 		}
 		p.Knobs["roguekey"] = 1
+		if prop == "C09" || mix(p.Inner, 0x726f6776)%3 == 0 {
+			p.Knobs["roguekey"] = 2 // own key, foreign proof
+		}
 		if p.Leader == "scripted" || p.Leader == "fixed" {
 			p.Leader, p.Script = "round-robin", nil
 		}
